@@ -513,6 +513,9 @@ class _TagRoles:
         via = self._via_helper(e, "sub")
         if via is not None:
             return via
+        lit = _lit(e, self.cw)
+        if isinstance(lit, ast.Constant):
+            return self.BAD, f"the fixed string {lit.value!r} is used instead of the warning's own subtype"
         if _is_name(e, S):
             return self.BAD, "the raw `subtype` argument is used (an enum object for catalogue members), not its catalogue string"
         if isinstance(e, ast.Call) and dotted(e.func) == "getattr" and len(e.args) == 3 and _is_name(e.args[0], S) and _is_name(e.args[2], S) and isinstance(e.args[1], ast.Constant):
@@ -555,6 +558,9 @@ class _TagRoles:
         via = self._via_helper(e, "type")
         if via is not None:
             return via
+        lit = _lit(e, self.cw)
+        if isinstance(lit, ast.Constant):
+            return self.BAD, f"the fixed type {lit.value!r} is used instead of the warning's own type (wtype, e.g. 'ref' for ref.footnote)"
         if _is_name(e, T):
             default = self.type_default
             if default is None or is_const(default, None):
@@ -1474,6 +1480,19 @@ def _only_adds(stmts: list[ast.stmt], var: str) -> bool:
     return True
 
 
+def _replace_or_remove(there: list[ast.stmt], absent: list[ast.stmt], var: str) -> bool:
+    """``R.replace(old, x)`` when the node exists, ``R.remove(old)`` when it does not: ``old`` goes either way."""
+    if len(there) != 1 or len(absent) != 1:
+        return False
+    a, b = there[0], absent[0]
+    if not (isinstance(a, ast.Expr) and isinstance(a.value, ast.Call) and isinstance(a.value.func, ast.Attribute) and isinstance(b, ast.Expr) and isinstance(b.value, ast.Call) and isinstance(b.value.func, ast.Attribute)):
+        return False
+    ca, cb = a.value, b.value
+    if ca.func.attr != "replace" or cb.func.attr != "remove" or len(ca.args) != 2 or len(cb.args) != 1 or ca.keywords or cb.keywords:
+        return False
+    return _is_name(ca.args[1], var) and unparse(ca.func.value) == unparse(cb.func.value) and unparse(ca.args[0]) == unparse(cb.args[0])
+
+
 def _maybe_only_adds(stmts: list[ast.stmt], var: str) -> bool:
     """Not recognised as list insertion, but every statement works on ``var`` and none leaves the block."""
     if not stmts:
@@ -1529,6 +1548,8 @@ def _use_kind(n: ast.Name, fi: FunctionInfo):
     while isinstance(parent(top), (ast.UnaryOp, ast.Compare)) and _presence_test(parent(top), var) != 0:  # type: ignore[arg-type]
         top = parent(top)  # type: ignore[assignment]
     tp = parent(top)
+    if isinstance(p, ast.BoolOp) and isinstance(p.op, ast.Or) and len(p.values) == 2 and p.values[0] is n and _is_empty_seq(p.values[1]):
+        return True  # `x or []`: the node or nothing
     if isinstance(tp, ast.IfExp) and tp.test is top:
         sign = _presence_test(tp.test, var)
         there, absent = (tp.body, tp.orelse) if sign > 0 else (tp.orelse, tp.body)
@@ -1539,6 +1560,8 @@ def _use_kind(n: ast.Name, fi: FunctionInfo):
         if isinstance(tp, ast.If):
             sign = _presence_test(tp.test, var)
             there, absent = (tp.body, tp.orelse) if sign > 0 else (tp.orelse, tp.body)
+            if _replace_or_remove(there, absent, var):
+                return True
             if all(isinstance(s, ast.Pass) for s in absent):
                 if _only_adds(there, var):
                     return True
@@ -1553,6 +1576,15 @@ def _use_kind(n: ast.Name, fi: FunctionInfo):
         return "is tested in a condition"
     if top is not n:
         return "is tested in a condition"
+    if isinstance(p, ast.Call) and isinstance(p.func, ast.Attribute) and p.func.attr in ("replace", "replace_self") and n in p.args:
+        st = parent(p)
+        gi = parent(st) if isinstance(st, ast.Expr) else None
+        if isinstance(gi, ast.If) and _presence_test(gi.test, var) != 0:
+            sign = _presence_test(gi.test, var)
+            there, absent = (gi.body, gi.orelse) if sign > 0 else (gi.orelse, gi.body)
+            if _replace_or_remove(there, absent, var):
+                return True
+        return f"replaces another node (`{short(p, 50)}`): that node is only replaced when the warning is not suppressed, otherwise it stays in the tree"
     placed = isinstance(p, (ast.List, ast.Tuple)) or (isinstance(p, ast.Call) and isinstance(p.func, ast.Attribute) and p.func.attr in ("append", "insert") and n in p.args)
     if placed:
         if _presence_guarded(n, fi):
@@ -1609,12 +1641,21 @@ def _judge_result(em: Emissions, fi: FunctionInfo, call: ast.Call, depth: int) -
     if isinstance(p, ast.Assign) and len(p.targets) == 1 and isinstance(p.targets[0], ast.Name):
         var = p.targets[0].id
         stores = [n for n in fi.local_nodes() if isinstance(n, ast.Name) and n.id == var and isinstance(n.ctx, ast.Store)]
+        reached = None  # None: every use; else the statements this assignment can reach without another store
         if len(stores) != 1:
-            return "error", site, f"`{var}` (result of create_warning) is assigned more than once: uses not followed"
+            if fi.is_lambda:
+                return "error", site, f"`{var}` (result of create_warning) is assigned more than once: uses not followed"
+            try:
+                cfg = get_cfg(fi)
+                others = {cfg.stmt_of(s) for s in stores} - {p}
+                loads = [n for n in fi.local_nodes() if isinstance(n, ast.Name) and n.id == var and isinstance(n.ctx, ast.Load)]
+                reached = {id(n) for n in loads if cfg.paths_avoiding(p, cfg.stmt_of(n), lambda x: x in others)}
+            except Exception as e:  # nested scopes etc.
+                return "error", site, f"`{var}` (result of create_warning) is assigned more than once and its uses cannot be followed ({type(e).__name__})"
         bad = None
         unk = None
         for n in fi.local_nodes():
-            if isinstance(n, ast.Name) and n.id == var and isinstance(n.ctx, ast.Load):
+            if isinstance(n, ast.Name) and n.id == var and isinstance(n.ctx, ast.Load) and (reached is None or id(n) in reached):
                 how = _use_kind(n, fi)
                 if how is None:
                     unk = n
@@ -1856,6 +1897,7 @@ def mutants(corpus: Corpus):
         out.append(Mutant("c14-suppress-args-swapped", "C14.R4", w.rel, splice(w.src, call, f"_is_suppressed_warning({unparse(call.args[1])}, {unparse(call.args[0])}, {unparse(call.args[2])})"), expect="order"))
         call = [c for c in ast.walk(t.test) if isinstance(c, ast.Call)][0]
         out.append(Mutant("c14-suppress-test-on-raw-arguments", "C14.R4", w.rel, splice(w.src, call, f"_is_suppressed_warning(wtype, subtype, {unparse(call.args[2])})"), expect="arguments"))
+        out.append(Mutant("c14-suppress-test-fixed-type", "C14.R4", w.rel, splice(w.src, call.args[0], '"myst"'), expect="arguments"))
         ret = t.body[-1]
         i = ind_of(w, ret)
         out.append(Mutant("c14-suppressed-branch-still-attaches", "C14.R4", w.rel, splice(w.src, ret, f"if append_to is not None:\n{i}    append_to.append(nodes.comment('', message))\n{i}return None"), expect="create_warning"))
@@ -1964,6 +2006,34 @@ def mutants(corpus: Corpus):
         out.append(Mutant("c14-default-type-changed", "C14.R6", w.rel, splice(w.src, c, '"MyST"'), expect="log record type"))
     else:
         out.append(("c14-default-type-changed", "no 'myst' literal in create_warning"))
+    c = find_node(f, lambda n: isinstance(n, ast.Call) and isinstance(n.func, ast.Attribute) and n.func.attr == "warning" and kwarg(n, "type") is not None)
+    if c is not None:
+        out.append(Mutant("c14-log-record-fixed-type", "C14.R6", w.rel, splice(w.src, kwarg(c, "type"), '"myst"'), expect="log record type"))
+    else:
+        out.append(("c14-log-record-fixed-type", "no logger call with type= in create_warning"))
+    # 8b. (seed class) the possibly-None result replaces another node
+    n_replace = 0
+    for mod_name, qn in (("parsers.docutils_", "Parser.parse"), ("parsers.sphinx_", "MystParser.parse")):
+        pm = corpus.mod(mod_name)
+        pf = pm.func(qn)
+        asg = find_node(pf, lambda n: isinstance(n, ast.Assign) and isinstance(n.value, ast.Call) and (dotted(n.value.func) or "").endswith("reporter.warning") and len(n.targets) == 1 and isinstance(n.targets[0], ast.Name))
+        rep_st = None
+        if asg is not None:
+            var = asg.targets[0].id
+            rep_st = find_node(pf, lambda n: isinstance(n, ast.Expr) and isinstance(n.value, ast.Call) and isinstance(n.value.func, ast.Attribute) and n.value.func.attr == "replace" and any(_is_name(a, var) for a in n.value.args))
+        short_id = mod_name.split(".")[-1].strip("_")
+        if asg is None or rep_st is None or "create_warning" not in pm.imports or "MystWarnings" not in pm.imports:
+            continue  # this front end cannot host the edit (shape changed, or the names are not imported there)
+        n_replace += 1
+        doc = unparse(asg.value.func.value.value) if isinstance(asg.value.func, ast.Attribute) and isinstance(asg.value.func.value, ast.Attribute) else "document"
+        new_call = f"create_warning({doc}, 'Raw content disabled.', MystWarnings.NOT_SUPPORTED, node=node)"
+        i = ind_of(pm, rep_st)
+        seg = ast.get_source_segment(pm.src, rep_st)
+        src1 = splice(pm.src, rep_st, f"if {var} is not None:\n{i}    {seg}")  # later position first
+        out.append(Mutant(f"c14-result-replaces-node-{short_id}", "C14.R5", pm.rel, splice(pm.src, asg.value, new_call), expect=qn))
+        out.append(Mutant(f"c14-result-replaces-node-guarded-{short_id}", "C14.R5", pm.rel, splice(src1, asg.value, new_call), expect=qn))
+    if not n_replace:
+        out.append(("c14-result-replaces-node", "neither parse() replaces raw nodes by `x = ...reporter.warning(...)`; `.replace(node, x)` with create_warning/MystWarnings imported"))
     # 9. tag format / untagged node
     js = find_node(f, lambda n: isinstance(n, ast.JoinedStr) and len([v for v in n.values if isinstance(v, ast.FormattedValue)]) == 3)
     if js is not None:
